@@ -99,3 +99,30 @@ claim("C03",
       "as C05 for W1; FakeState + backend contract for W2; wrapper-level W3 (oversized final result) is decided under C16/C18",
       "CrossHair symbolic execution (z3): coroutine-lowered real batcher under a solver-driven scheduler + real operation executors over arbitrary records",
       "DESIGN.md §3 C03")
+claim("C08",
+      "z3 string query generated from the AST of _create_step_id_for_logical_step: the pre-image string is injective in (has_parent, parent, n) for equal-length hex "
+      "parents (L<=8, 16 thorough); SX over the real DurableContext: every solver-chosen program shape (<=3 ops of 6 kinds, nested children) yields Id = "
+      "H(path), ParentId = enclosing context, distinct ids, and an update-free replay; real _execute_item_in_child_context for 3 branches in all 6 orders + a "
+      "resubmission: branch ids depend on the index only, counter untouched, same inner ids when re-run; every update kind keeps its parent link; counter "
+      "thread-safety lemma shared with C19.",
+      "blake2b collision-freedom assumed; real ids have L=64 (outside the solver bound; encoding is length-parametric); user code sharing a context between threads is outside the claim",
+      "z3 sequence/regex query from the AST + CrossHair symbolic execution of the real context/executor id code",
+      "DESIGN.md §3 C08")
+claim("C02",
+      "Composed symbolic runs of the REAL wrapper/context/executors/state/checkpoint thread against a wire-level backend model: 4 deterministic workflow templates "
+      "with symbolic step values are run twice (baseline vs. a variant with a process crash at a solver-chosen invocation x API call x before/after apply, "
+      "paginated history, consumer run-ahead); at every durable-call position all invocations of both runs observe the same value (type-exact) or the same "
+      "exception class+message, and both runs end with the same final output. Includes a >256KB child (ReplayChildren) template. All paths exhausted per lemma.",
+      "sequential workflows (map/parallel replay is covered in C09/C16 lemmas); <= 6 invocations; one crash per execution; json is the opaque model; backend model "
+      "and its timers are stubs; open finding KF-C02-wfc-first-failure-raises-original excluded (reported as KNOWN-FINDING)",
+      "CrossHair symbolic execution (z3) of the real durable_execution wrapper + coroutine-lowered checkpoint thread over a stateful backend model, differential baseline/variant",
+      "DESIGN.md §2.4, §3 C02")
+claim("C18",
+      "Composed symbolic runs of the real wrapper: handler returns JSON / non-serializable / oversized (limit+d for any d) values or raises one of 12 exception "
+      "classes at top level, after a step, or inside a child; the checkpoint API fails at call 1..3 with 4 error shapes (any 4xx!=429 / any 5xx / invalid token / "
+      "non-boto) under consumer run-ahead 0..6 and immediate-wake races; malformed events; plus CheckpointError.from_exception against its documented rule with "
+      "symbolic status/code/message. Oracle: exactly one well-formed outcome, raise only for retriable checkpoint / invocation errors / bad payload, checkpoint "
+      "thread stopped and finished before the wrapper leaves. All paths exhausted.",
+      "sequential handler (failures inside map/parallel branches: C06 executor lemmas); boto errors follow botocore's ClientError.response contract; json model",
+      "CrossHair symbolic execution (z3) of the real wrapper + LambdaClient + coroutine-lowered checkpoint thread with fault injection",
+      "DESIGN.md §3 C18")
